@@ -4,15 +4,18 @@ CONSTANTS
   Fee <- TFee
   TreasuryOf <- TTreasuryOf
   Treasury = {"t1", "t2", "t3"}
-  Payer = {"p1", "p2"}
+  Payer = {"p1", "p2", "t1"}
   MaxBal = 0
   AskSet = {1}
   MaxSrc = 1
   MaxLimit = 0
   MaxReq = 1000000
+  SigFeeSet = {0}
+  SigDenom = "u"
+  EncSet = {TRUE, FALSE}
   TraceFile = "trace.ndjson"
 SPECIFICATION TraceSpec
 INVARIANTS NonNegative
-PROPERTIES TExact TConserved
+PROPERTIES TExact TConserved TSigning
 POSTCONDITION TraceAccepted
 CHECK_DEADLOCK FALSE
